@@ -387,7 +387,9 @@ func (w *World) tokenCall(p int, r *http.Request, grantAllRequested bool) (Obs, 
 	}
 	if grantAllRequested {
 		for _, s := range ar.GetRequestedScopes() {
-			ar.GrantScope(s)
+			if w.grantOnly == nil || contains(w.grantOnly, s) {
+				ar.GrantScope(s)
+			}
 		}
 		for _, a := range ar.GetRequestedAudience() {
 			ar.GrantAudience(a)
@@ -512,6 +514,10 @@ func (w *World) doPassword(p int, op Op) Obs {
 	}
 	w.setAuth(r, f, op.Client, op.Auth)
 	finishPost(r, f)
+	if op.Grant != nil { // the application grants only these of the requested scopes
+		w.grantOnly = append([]string{}, op.Grant...)
+		defer func() { w.grantOnly = nil }()
+	}
 	o, _, _ := w.tokenCall(p, r, true)
 	return o
 }
@@ -892,9 +898,12 @@ func (w *World) doDevDecide(p int, op Op) Obs {
 		o.Res = errName(err)
 		return o
 	}
-	if op.Dec == "accept" || op.Dec == "accept_fresh" {
+	if op.Dec == "accept" || op.Dec == "accept_fresh" || op.Dec == "accept_user_later" {
 		if op.Dec == "accept_fresh" {
 			req.SetSession(w.session())
+		}
+		if op.Dec == "accept_user_later" { // the consent application extends the USER code (say, to let the user finish): the device code's own expiry stands
+			req.GetSession().SetExpiresAt(fosite.UserCode, time.Now().UTC().Add(1000*Tick))
 		}
 		req.SetUserCodeState(fosite.UserCodeAccepted)
 		if req.GetGrantedScopes().Has("openid") {
@@ -1009,6 +1018,11 @@ func (w *World) doUsePar(p int, op Op) Obs {
 		q.Set("audience", AllAud[1])
 	case "response_mode":
 		q.Set("response_mode", "fragment")
+	case "nonce": // parameters without a field of their own, read from the raw form by the handlers
+		q.Set("nonce", "injected-nonce-0123456789")
+	case "code_challenge":
+		q.Set("code_challenge", "injected-challenge-0123456789-0123456789-0123456789")
+		q.Set("code_challenge_method", "plain")
 	}
 	r := httptest.NewRequest("GET", "https://issuer.example/auth?"+q.Encode(), nil)
 	ar, err := w.Provider.NewAuthorizeRequest(ctx, r)
@@ -1021,6 +1035,9 @@ func (w *World) doUsePar(p int, op Op) Obs {
 	}
 	o.Note = fmt.Sprintf("%s|%s|%s|%s|%s|%s", ar.GetRedirectURI().String(), strings.Join(sortedCopy(ar.GetResponseTypes()), " "),
 		strings.Join(sortedCopy(ar.GetRequestedScopes()), " "), ar.GetState(), strings.Join(sortedCopy(ar.GetRequestedAudience()), " "), string(ar.GetResponseMode()))
+	if op.Kind == "own" { // the raw form of a request hydrated from a pushed one: the pushed nonce, no PKCE challenge
+		o.Note += "|" + ar.GetRequestForm().Get("nonce") + "|" + ar.GetRequestForm().Get("code_challenge")
+	}
 	for _, s := range ar.GetRequestedScopes() {
 		ar.GrantScope(s)
 	}
